@@ -68,7 +68,7 @@ class FeatureIDEReader(TextToModel):
         if root is None:
             raise FlamaException("No root feature found")
 
-        return FeatureModel(root=root, constraints=constraints)
+        return FeatureModel(root=root, constraints=constraints_list)
 
     def _read_features(
         self,
